@@ -72,14 +72,15 @@ type ContractSet struct {
 	Axioms  []*Axiom
 	Stable  map[string]bool // "pkg.Type.field"
 	Ghosts  map[string]*TypeExpr
+	ConstGlobals map[string]string
 	Order   []string
 }
 
-var kwRe = regexp.MustCompile(`^(func|trusted|spec|opaque|declare|axiom|lemma|props|requires|domain|ensures|assigns|loop|inline|light|assert|pure|stable|ghost|maypanic|note)\b`)
+var kwRe = regexp.MustCompile(`^(func|trusted|spec|opaque|declare|axiom|lemma|constglobal|props|requires|domain|ensures|assigns|loop|inline|light|assert|pure|stable|ghost|maypanic|note)\b`)
 var nameRe = regexp.MustCompile(`^\[([A-Za-z0-9_\-:#.]+)\]\s*`)
 
 func newContractSet() *ContractSet {
-	return &ContractSet{Funcs: map[string]*Contract{}, Specs: map[string]*SpecFn{}, Stable: map[string]bool{}, Ghosts: map[string]*TypeExpr{}}
+	return &ContractSet{Funcs: map[string]*Contract{}, Specs: map[string]*SpecFn{}, Stable: map[string]bool{}, Ghosts: map[string]*TypeExpr{}, ConstGlobals: map[string]string{}}
 }
 
 type rawLine struct {
@@ -297,6 +298,18 @@ func (cs *ContractSet) readContractFile(path, pkgPath string) error {
 				return fail("%v", err)
 			}
 			cs.Axioms = append(cs.Axioms, &Axiom{Name: strings.TrimSpace(rest[:i]), E: e, Pkg: pkgPath, Src: rest[i+1:], Proved: word == "lemma"})
+			cur = nil
+		case "constglobal":
+			// constglobal name "content": a package-level []byte that is never modified
+			fs := strings.SplitN(rest, " ", 2)
+			if len(fs) != 2 {
+				return fail("constglobal needs 'name \"content\"'")
+			}
+			v, err := unquote(strings.TrimSpace(fs[1]))
+			if err != nil {
+				return fail("%v", err)
+			}
+			cs.ConstGlobals[pkgPath+"."+fs[0]] = v
 			cur = nil
 		case "stable":
 			for _, f := range strings.Fields(strings.ReplaceAll(rest, ",", " ")) {
